@@ -283,8 +283,7 @@ theorem handleElem_clean (cfg : Cfg) (n : Name) (as : List Attr) (rs1 : RS) (pro
     · simp [Step.inv] at hi; exact hi.symm
     · simp [Step.inv] at hi; exact hi.symm
     · split at hi <;> (simp [Step.inv] at hi; exact hi.symm)
-    · simp [Step.inv] at hi; exact hi.symm
-    · simp [Step.inv] at hi; exact hi.symm
+    all_goals (simp [Step.inv] at hi; exact hi.symm)
   subst key
   exact ⟨⟨n, _, rfl, by simpa [plainTok] using hn⟩, hv⟩
 
@@ -334,5 +333,18 @@ theorem serveF_clean (cfg : Cfg) : ∀ (fuel : Nat) (rs : RS) (progs : List Prog
           have : i = j := by simpa using hi
           rw [this]; exact hc j rfl
       · exact ih _ _ i hi
+
+/-- whatever the handler does and returns, `handleElem` never ends the session cleanly -/
+theorem handleElem_never_clean (cfg : Cfg) (n : Name) (as : List Attr) (rs1 : RS) (prog : Prog)
+    (inv : Option Inv) (w : List Tok) : handleElem cfg n as rs1 prog ≠ .stop inv w .clean := by
+  unfold handleElem
+  simp only
+  cases hr : prog.ret <;> simp only [hr] <;> (repeat' split) <;> simp
+
+theorem dropWritten_clean {x : Step} {inv : Option Inv} {w : List Tok}
+    (h : x.dropWritten = .stop inv w .clean) : ∃ w', x = .stop inv w' .clean := by
+  cases x with
+  | next i w' rs => simp [Step.dropWritten] at h
+  | stop i w' r => simp [Step.dropWritten] at h; exact ⟨w', by simp [h.1, h.2.2]⟩
 
 end XmppModel.Serve
